@@ -21,21 +21,22 @@ CONSTANTS Dev
 
 Traces == JsonDeserialize(IOEnv.TRACE_FILE)
 NT == Len(Traces)
-AttrsAll == {"Resources", "MediaBox", "CropBox", "Rotate"}
+Inherited == {"Resources", "MediaBox", "CropBox", "Rotate"}      \* PDFPage.INHERITABLE_ATTRS
+AttrsAll == Inherited \cup {"Annots"}                              \* Annots: recorded too, never inherited
 
 VARIABLES t, stack, visited, call, pc, k
 vars == <<t, stack, visited, call, pc, k>>
 
 Cur  == Traces[t]
 Tree == Cur.tree
-RootPP(tr) == IF "CatalogInherits" \in Dev THEN [a \in AttrsAll |-> tr.cat[a]] ELSE [a \in AttrsAll |-> 0]
+RootPP(tr) == IF "CatalogInherits" \in Dev THEN [a \in AttrsAll |-> IF a \in Inherited THEN tr.cat[a] ELSE 0] ELSE [a \in AttrsAll |-> 0]
 StartCall(i) == IF i <= NT THEN [t |-> 1, pp |-> RootPP(Traces[i])] ELSE [t |-> 0, pp |-> [a \in AttrsAll |-> 0]]
 
 Init == t = 1 /\ stack = <<>> /\ visited = {} /\ call = StartCall(1) /\ pc = "call" /\ k = 0
 
 Top == stack[Len(stack)]
 Resume(st) == IF st = <<>> THEN "done" ELSE "loop"
-InheritV(vals, pp) == [a \in AttrsAll |-> IF vals[a] # 0 THEN vals[a] ELSE pp[a]]
+InheritV(vals, pp) == [a \in AttrsAll |-> IF vals[a] # 0 THEN vals[a] ELSE IF a \in Inherited THEN pp[a] ELSE 0]
 Props == InheritV(Tree[call.t].vals, call.pp)
 Live == t <= NT
 
@@ -67,9 +68,9 @@ TLoopEnd ==    /\ Live /\ pc = "loop" /\ Top.idx = Len(Tree[Top.node].kids)
 
 \* ---- end of a trace: the declarative reference and the selections
 NearestV(gr, path, a) ==
-  LET def == {i \in 1..Len(path) : gr[path[i]].vals[a] # 0}
+  LET def == {i \in (IF a \in Inherited THEN 1 ELSE Len(path))..Len(path) : gr[path[i]].vals[a] # 0}
   IN IF def = {} THEN 0 ELSE gr[path[MaxOf(def)]].vals[a]
-CatSilent(tr) == "CatalogInherits" \notin Dev \/ \A a \in AttrsAll : tr.cat[a] = 0
+CatSilent(tr) == "CatalogInherits" \notin Dev \/ \A a \in Inherited : tr.cat[a] = 0
 \* the unfolding of the reference lists every cycle-free path, which explodes on large graphs with many repeated
 \* or backward Kids entries; it is evaluated on the recorded documents whose Kids form a proper tree (all of the
 \* repository's samples do) - on the others the step-by-step match above is the validation
